@@ -92,10 +92,13 @@ def run(ctx, out):
                                    "what": f"API returned mid outside 1..65535: {a}", "signature": "mid-range-api"})
     out.sample({"start": api_cases[1][0], "calls(0=pub0,1=pub1,2=sub,3=unsub)": api_cases[1][1], "mids": api_seq(*api_cases[1])})
 
-    # no-share oracle
-    for q in (1, 2):
+    # no-share oracle; with a bounded queue that is not full the id test must still be made (seed S-C14-5 folded the two
+    # refusals into one branch), and with a small window the outstanding message may be a queued one
+    for q, maxq, window in [(q, mq, w) for q in (1, 2) for mq in (0, 100, 2) for w in (20, 1)]:
         for live in [1, 65535, rng.randrange(2, 65535)]:
             c, s = connected_client()
+            c._max_queued_messages = maxq
+            c._max_inflight_messages = window
             c._last_mid = (live - 1) if live > 1 else 65535
             first = c.publish("t", b"a", q)
             assert first.mid == live
@@ -105,11 +108,11 @@ def run(ctx, out):
             info = c.publish("t", b"b", q)
             after = [(m.mid, m.state, m.qos) for m in c._out_messages.values()]
             out.cases += 1
-            out.seen(("noshare", q, live))
+            out.seen(("noshare", q, live, maxq, window))
             out.stat("noshare")
             if not (info.mid == live and info.rc == mqtt.MQTT_ERR_QUEUE_SIZE and before == after and bytes(s.wire) == wire_before):
-                out.violations.append({"case": {"kind": "noshare", "qos": q, "live_mid": live},
-                                       "what": f"second publish with outstanding id {live}: rc={info.rc} store {before}->{after}",
+                out.violations.append({"case": {"kind": "noshare", "qos": q, "live_mid": live, "max_queued": maxq, "max_inflight": window},
+                                       "what": f"second publish with outstanding id {live} (max_queued_messages {maxq}, window {window}): rc={info.rc} store {before}->{after}",
                                        "signature": "mid-shared"})
 
     # threaded allocation (test, not proof)
